@@ -38,19 +38,35 @@ def run(repo, rep):
     rep.analysed(upd)
     rep.analysed(bld)
     probs = []
-    start_assign = [n for n in ast.walk(upd.node) if isinstance(n, ast.Assign) and norm(n.targets[0]) == 'start']
-    ok_start = False
-    if start_assign and isinstance(start_assign[0].value, ast.IfExp):
-        ie = start_assign[0].value
-        if norm(ie.test) == 'self.context_def_list' and norm(ie.body) in ('max(self.context_def_list.keys()) + 2', 'max(self.context_def_list) + 2') \
-                and norm(ie.orelse) == '1':
-            ok_start = True
+    # path-based: on every path the second argument of the _build_context_def_list call is 1 when no context
+    # exists yet and max(existing ids) + 2 otherwise
+    uc = SymClient(repo, upd, event_of=lambda call, callee, *_: 'build' if callee == 'self._build_context_def_list' else None,
+                   hierarchy=hier, inline=repo.is_helper)
+    uo = uc.run(empty_state())
+    builds = [(e, s) for s, _how in uc.final_states(uo) for e in s.trail if e.kind == 'build']
+    ok_start = bool(builds)
+    seen_start = set()
+    for e, _s in builds:
+        st_term = e.args[1] if len(e.args) > 1 else dict(e.kwargs).get('start', '?')
+        seen_start.add(st_term)
+        has = '+self.context_def_list' in e.conds or '-not self.context_def_list' in e.conds \
+            or '+len(self.context_def_list) > 0' in e.conds or '-len(self.context_def_list) == 0' in e.conds
+        empty = '-self.context_def_list' in e.conds or '+not self.context_def_list' in e.conds \
+            or '-len(self.context_def_list) > 0' in e.conds or '+len(self.context_def_list) == 0' in e.conds
+        if has and st_term in ('max(self.context_def_list.keys()) + 2', 'max(self.context_def_list) + 2',
+                               '2 + max(self.context_def_list.keys())', '2 + max(self.context_def_list)'):
+            continue
+        if empty and st_term == '1':
+            continue
+        ok_start = False
+    if len(seen_start) < 2:
+        ok_start = False
     if not ok_start:
         probs.append('first id of a batch is %s, expected "1 if no context yet else max(existing ids) + 2"'
-                     % (norm(start_assign[0].value) if start_assign else 'not found'))
+                     % (' / '.join(sorted(seen_start)) or 'not found'))
     call = [n for n in ast.walk(upd.node) if isinstance(n, ast.Call) and norm(n.func) == 'self._build_context_def_list']
-    if not call or len(call[0].args) < 2 or norm(call[0].args[1]) != 'start':
-        probs.append('the batch is not built from the computed start id')
+    if not call:
+        probs.append('the batch is not built by _build_context_def_list')
     upd_call = [n for n in ast.walk(upd.node) if isinstance(n, ast.Call) and norm(n.func) == 'self.context_def_list.update']
     if not upd_call:
         probs.append('new contexts are not merged into context_def_list')
